@@ -1564,6 +1564,11 @@ class Interp:
 
     def ex_SetComp(self, node, env):
         out = []
+        if getattr(self, 'sym_containers', False):
+            import z3 as _z3
+            from .symcoll import to_symset
+            self._comp(node, env, lambda e: out.append(self.eval(node.elt, e)))
+            return to_symset(self, out, _z3.StringSort()).copy()
         self._comp(node, env, lambda e: out.append(self.hashable(self.eval(node.elt, e))))
         return set(out)
 
